@@ -151,6 +151,14 @@ func (s *Stream) Op(op, implAnswer string, nontrivial bool) {
 	}
 }
 
+// Pending records, on disk, the history that is about to be extended by a step that may crash the
+// process (a frame injected into a real daemon): if the stream dies, ./check builds the replay from it.
+func (s *Stream) Pending(lines []string) {
+	s.mu.Lock()
+	defer s.mu.Unlock()
+	os.WriteFile(filepath.Join(OutDir(), s.name+".pending"), []byte(strings.Join(lines, "\n")), 0o644)
+}
+
 func (s *Stream) Count(key string) {
 	s.mu.Lock()
 	s.Dist[key]++
